@@ -232,6 +232,13 @@ def forms(kind, xs, S):
     # --- extrema / sorting
     add("min", "min(%s)" % S, ("numeq", min(xs)) if n else RAISE)
     add("max", "max(%s)" % S, ("numeq", max(xs)) if n else RAISE)
+    if n and not unordered:
+        # which of several ==-equal extrema is returned: every spelling agrees with the fold of the binary operator (the first one)
+        add("max", "[max(%s), %s fold max, (for (x_ <- %s) yield x_ into max)]" % (S, S, S), ("all-identical",))
+        add("min", "[min(%s), %s fold min, (for (x_ <- %s) yield x_ into min)]" % (S, S, S), ("all-identical",))
+        if n >= 2:
+            add("max", "[max(...%s), %s fold max]" % (S, S), ("all-identical",))
+            add("min", "[min(...%s), %s fold min]" % (S, S), ("all-identical",))
     add("sort", "sort(%s)" % S, None if (unordered and False) else (E(Seq(K, stable_sorted(xs))) if not unordered else ("sorted-multiset", [conv(x) for x in stable_sorted(xs)])))
     if not unordered:
         for ks, kf in keys(kind):
@@ -472,6 +479,8 @@ def judge(case, rs):
     elif t == "sorted-multiset":
         ok = isinstance(got, list) and got[0] == "l" and ms(got[1]) == ms(exp[1]) and \
             all(numval(a) <= numval(b) for a, b in zip(got[1], got[1][1:]))
+    elif t == "all-identical":
+        ok = isinstance(got, list) and got[0] == "l" and len(got[1]) >= 2 and all(x == got[1][0] for x in got[1][1:])
     elif t == "numeq":
         want = exp[1]
         ok = numval(got) is not None and numval(got) == want
